@@ -46,14 +46,17 @@ IntervalStep ==
       srmay == SRMay(cfg, eps, in)
       fpmay == FPMay(cfg, eps, in)
       ok == srmay \cup fpmay
-      k == c0 + Cardinality(new) - 1
       m1 == [e \in eps |-> IF e \in new
                              THEN (IF OMult(e) = mult[e] + 2 /\ e \in srmay \cap fpmay THEN mult[e] + 2 ELSE mult[e] + 1)
                              ELSE mult[e]]
       judged == before \ ok       \* an ejected endpoint that had failing traffic may have been ejected again: not judged
   IN /\ Mark(~started, "R4_IntervalWithoutTimer", l)
      /\ Mark(~(new \subseteq ok), "I_EjectOnlyIfCriterion", l)
-     /\ Mark(new # {} /\ ~(k * 100 < cfg.maxPct * n \/ CapTie(cfg, k, n)), "I_EjectOnlyBelowMaxPercent", l)
+     \* the share of ejected current endpoints is taken before EACH new ejection of this interval: before the
+     \* j-th one (any visiting order) c0 + j - 1 endpoints were ejected; the number of new ejections is thereby
+     \* bounded by what the budget allows from the count before the interval
+     /\ Mark(\E j \in 1..Cardinality(new) : ~((c0 + j - 1) * 100 < cfg.maxPct * n \/ CapTie(cfg, c0 + j - 1, n)),
+             "I_EjectOnlyBelowMaxPercent", l)
      /\ Mark(\E e \in judged : now > at[e] + Dur(cfg, mult[e]) /\ e \in T, "I_UnejectWhenElapsed", l)
      /\ Mark(\E e \in judged : now < at[e] + Dur(cfg, mult[e]) /\ e \notin T, "I_UnejectNotBefore", l)
      /\ ej' = [e \in eps |-> e \in T]
@@ -64,7 +67,7 @@ IntervalStep ==
      /\ Common(eps)
      /\ Drift(\E e \in eps : OMult(e) # mult'[e], "MultiplierDiffers", l)
      /\ Drift((SRMust(cfg, eps, in) \cup FPMust(cfg, eps, in)) \ (before \cup new) # {}
-              /\ ~Blocked(cfg, Obs.cnt, n), "FailingEndpointNotEjected", l)
+              /\ ~Blocked(cfg, Obs.cnt + Cardinality(before \ T), n), "FailingEndpointNotEjected", l)   \* counter before this interval's un-ejections
 
 Step ==
   CASE Ev.ev = "update"   -> UpdateStep
